@@ -92,3 +92,139 @@ Print Assumptions C10_nothing_after_end.
 Print Assumptions C10_hooks_never_overlap.
 Print Assumptions C10_bracket_needs_boot.
 Print Assumptions C10_kill_mid_write_never_ends.
+
+(** ======================================================================================
+    TIE of Relay/Model.v to the code, by proof (Relay/Tie.v, Relay/TieSkeleton.v).
+    Gen/RelaySkel.v = the statement trees of RunSession.run, _on_start_run, _on_end_run,
+    relay_events, _monitor, Timer, wait_until_queue_empty, spawned.main, regenerated from /repo at
+    every check by translate/relay_skeleton.py (fail closed).  [irun] interprets those trees
+    (main task + monitor task with continuations, the child, the same pipe) under the SAME labels
+    as the model; [K]/[KM] are the control points computed from the trees. *)
+From NL Require Import Relay.Syntax Gen.RelaySkel Relay.Tie Relay.TieSkeleton.
+
+(** for EVERY list of labels the interpreter of the regenerated code and the model are in lock
+    step: same pipe, same child, same histories and plugin log, corresponding control points *)
+Theorem C10_tie_simulation : forall boot script ls, R (irun boot script ls) (run boot script ls).
+Proof. exact sim. Qed.
+
+Theorem C10_tie_same_log : forall boot script ls,
+  let s := irun boot script ls in
+  let m := run boot script ls in
+  d_log (dd s) = log m /\ d_delivered (dd s) = delivered m /\ d_emitted (dd s) = emitted m /\
+  d_pipe (dd s) = pipe m /\ d_child (dd s) = child m /\ k_main s = K (main m) /\ k_mon s = KM (mon m).
+Proof. exact tie_same_histories. Qed.
+
+(** hence the theorems above hold of the regenerated code *)
+Theorem C10_tie_complete_in_order : forall boot script ls,
+  let s := irun boot script ls in
+  In OEndRun (d_log (dd s)) -> d_child (dd s) = CExited ->
+  d_delivered (dd s) = script /\ d_emitted (dd s) = script /\ deliveries (d_log (dd s)) = script.
+Proof. exact tie_complete_in_order. Qed.
+
+Theorem C10_tie_prefix_on_kill : forall boot script ls,
+  let s := irun boot script ls in
+  (exists rest, d_emitted (dd s) = d_delivered (dd s) ++ rest) /\ (exists rest, script = d_emitted (dd s) ++ rest) /\
+  deliveries (d_log (dd s)) = d_delivered (dd s).
+Proof. exact tie_prefix_on_kill. Qed.
+
+Theorem C10_tie_bracketed : forall script ls, bracketed (d_log (dd (irun true script ls))) = true.
+Proof. exact tie_bracketed. Qed.
+
+Theorem C10_tie_nothing_after_end : forall boot script ls l,
+  In OEndRun (d_log (dd (irun boot script ls))) ->
+  d_log (dd (irun boot script (ls ++ [l]))) = d_log (dd (irun boot script ls)).
+Proof. exact tie_nothing_after_end. Qed.
+
+(** direct corollaries on the regenerated code.
+    (1) no second `queue.get` before the hooks of the previous event returned *)
+Theorem C10_tie_one_event_at_a_time : forall boot script ls,
+  alternating None (d_log (dd (irun boot script ls))) = true.
+Proof. exact tie_one_event_at_a_time. Qed.
+
+Theorem C10_tie_no_get_before_hook_returned : forall boot script ls z l,
+  mon (run boot script ls) = MBusy z -> (l = MonTake \/ l = MonSeesSentinel) ->
+  istep boot (irun boot script ls) l = irun boot script ls.
+Proof. exact tie_no_get_before_hook_returned. Qed.
+
+(** (2) `_on_end_run` only after `await task`: the monitor coroutine has run to its end *)
+Theorem C10_tie_end_run_after_await_task : forall boot script ls,
+  let s := irun boot script ls in
+  In OEndRun (d_log (dd s)) -> k_mon s = Some [] /\ k_main s = K_endrun.
+Proof. exact tie_end_run_after_await_task. Qed.
+
+(** (3) the sentinel only after the child was awaited, behind everything the child wrote *)
+Theorem C10_tie_sentinel_after_child_awaited : forall boot script ls,
+  let s := irun boot script ls in
+  nosent (d_pipe (dd s)) = false ->
+  dead (d_child (dd s)) = true /\ sent_last (d_pipe (dd s)) = true /\ k_main s = K_awaitmon.
+Proof. exact tie_sentinel_after_child_awaited. Qed.
+
+(** Timer (utils/timer.py), translated: is_timeout() is false for ever without a timeout, else
+    true iff MORE than the timeout has elapsed since the last restart(); so DrainTick (no time
+    elapsed) never leaves the drain loop by the break and Timeout (more than the timeout) does *)
+Theorem C10_tie_timer_is_timeout : forall tm now,
+  timer_fired tm now = match t_timeout tm with None => false | Some t => (now - t_start tm >? t)%Z end.
+Proof. exact timer_fired_spec. Qed.
+
+Theorem C10_tie_timer_restart : forall tm now, timer_restarted tm now = mkT (t_timeout tm) now.
+Proof. exact timer_restarted_spec. Qed.
+
+Theorem C10_tie_drain_labels : relay_timer_says false = false /\ relay_timer_says true = true.
+Proof. exact drain_labels_meaning. Qed.
+
+(** the child (spawned.main): all the puts, then wait_until_queue_empty (which, called without a
+    timeout, returns exactly when it sees the queue empty and never raises), then return; at exit
+    the feeder thread is joined (nothing cancels it); the queue is the one relay_events reads *)
+Theorem C10_tie_child_flush_order : child_order 0 child_main_prog = true.
+Proof. exact child_flush_order. Qed.
+
+Theorem C10_tie_child_wait : forall t0 obs, wait_exec None t0 obs = wait_spec obs.
+Proof. exact wait_returns_iff_seen_empty. Qed.
+
+Theorem C10_tie_child_waits_without_timeout :
+  forallb (fun t => match tmo_val t None with None => true | Some _ => false end) (child_wait_tmos child_main_prog) = true.
+Proof. exact child_waits_without_timeout. Qed.
+
+Theorem C10_tie_child_exit_flushes : child_exit_joins_feeder = true.
+Proof. exact child_exit_flushes. Qed.
+
+Theorem C10_tie_queue_wiring : set_queues_out_pos = session_out_pos.
+Proof. exact queue_wiring. Qed.
+
+(** the two translators agree (Gen/CallbackSkeleton.v is what C12's exception analysis uses);
+    on_event_in_process awaits, for every event class, the hook of its own name *)
+Theorem C10_tie_skeletons_agree :
+  mkseq (erase session_prog) = CS.session_skeleton /\ mkseq (erase relay_prog) = CS.relay_skeleton.
+Proof. exact skeletons_agree. Qed.
+
+Theorem C10_tie_dispatch :
+  forallb (fun p => String.eqb (snake (fst p)) (snd p)) dispatch = true /\ nodupb (map fst dispatch) = true /\
+  negb (Nat.eqb (List.length dispatch) 0) = true.
+Proof. exact dispatch_awaits_own_hook. Qed.
+
+Example C10_tie_example_nonvacuous :
+  let s := irun true [1; 2; 3] ex_ls in
+  d_log (dd s) = [OStartRun; ODeliver 1; ODone 1; ODeliver 2; ODone 2; ODeliver 3; ODone 3; OEndRun] /\
+  k_main s = K_endrun /\ k_mon s = Some [] /\ d_child (dd s) = CExited.
+Proof. exact tie_example. Qed.
+
+Print Assumptions C10_tie_simulation.
+Print Assumptions C10_tie_same_log.
+Print Assumptions C10_tie_complete_in_order.
+Print Assumptions C10_tie_prefix_on_kill.
+Print Assumptions C10_tie_bracketed.
+Print Assumptions C10_tie_nothing_after_end.
+Print Assumptions C10_tie_one_event_at_a_time.
+Print Assumptions C10_tie_no_get_before_hook_returned.
+Print Assumptions C10_tie_end_run_after_await_task.
+Print Assumptions C10_tie_sentinel_after_child_awaited.
+Print Assumptions C10_tie_timer_is_timeout.
+Print Assumptions C10_tie_timer_restart.
+Print Assumptions C10_tie_drain_labels.
+Print Assumptions C10_tie_child_flush_order.
+Print Assumptions C10_tie_child_wait.
+Print Assumptions C10_tie_child_waits_without_timeout.
+Print Assumptions C10_tie_child_exit_flushes.
+Print Assumptions C10_tie_queue_wiring.
+Print Assumptions C10_tie_skeletons_agree.
+Print Assumptions C10_tie_dispatch.
